@@ -29,11 +29,15 @@ def tryToReorder (f : M α) : M α := do
     let lenAfter := m.len
     -- try again (second `with` block: a `_NeedsReordering` here would be swallowed
     -- and `r` unbound; cannot happen because `_last_len is None`)
-    match ← withCtx f with
-    | none => M.throw .other
-    | some r =>
-      M.modify fun m => { m with lastLen := some (Gen.growthFactor * lenAfter) }
-      return r
+    -- `try: ... finally: bdd._last_len = GROWTH_FACTOR * len_after`
+    fun m0 =>
+      match withCtx f m0 with
+      | (.ok none, m1) =>
+        (.error .other, { m1 with lastLen := some (Gen.growthFactor * lenAfter) })
+      | (.ok (some r), m1) =>
+        (.ok r, { m1 with lastLen := some (Gen.growthFactor * lenAfter) })
+      | (.error e, m1) =>
+        (.error e, { m1 with lastLen := some (Gen.growthFactor * lenAfter) })
 
 /-- `BDD.ite` -/
 def ite (g u v : Int) : M Int := tryToReorder (iteRaw g u v)
